@@ -27,6 +27,7 @@ from . import c05_tables
 
 THEOREMS = ["templates_python", "templates_numpy", "templates_cpp", "templates_numpy_item_shape", "templates_witness",
             "templates_reject_examples", "consts_all", "types_all", "ssa_wf", "assigned_once", "sem_preserve", "debug_equiv",
+            "const_name_complex_examples", "const_name_int_inj", "const_name_witness",
             "registry_inj_partial", "registry_inj_toplevel", "registry_inj_witness", "no_alias", "no_alias_graph",
             "auto_names_witness"]
 SEARCHED = [
@@ -46,7 +47,7 @@ TRUSTED = [
 LEVEL_TEXT = ("Proof for the printer model: for every DAG with pairwise distinct reference names the printed statement list is in SSA form "
               "(each variable assigned once, before use), evaluates to the value of the graph for every primitive semantics and environment, and "
               "debug level 1 adds only assertions; every row of the regenerated kind/constant/type tables denotes its kind per the trusted primitive "
-              "table (5 rows exempt by name — python/numpy remainder, python sign, cpp sign, numpy item — with proved negation witnesses); the reference registry is injective along every history that never takes the "
+              "table (3 rows exempt by name — python sign, cpp sign, numpy item — with proved negation witnesses); the reference registry is injective along every history that never takes the "
               "unchecked `_0_` branch (negation witness proved and replayed). Execution bit-identity, compile/load errors and name collisions of "
               "auto-generated names are decided by differential runs against an independent interpreter (search).")
 LEVEL_NOTE = ("Partial where stated: registry injectivity and template correctness are false of the code as written (exact extra hypotheses / "
@@ -245,7 +246,7 @@ def malformed_cases():
 
 # ----------------------------------------------------------------------------- classification of failures
 
-INF_NAME = re.compile(r"(?<![\w.])(inf|nan)(?![\w(.])")
+INF_NAME = re.compile(r"(?<![\w.])(inf|nan)j?(?![\w(.])")
 
 
 def classify(r):
@@ -313,6 +314,9 @@ def classify(r):
         elif t == "numpy" and "AssertionError" in m["why"] and "dtype(" in m["why"] and all(mm["debug"] >= 1 for mm in ex["mismatches"]):
             out.append(("numpy:debug1:dtype-assertion-fails:static-type-differs-from-runtime-dtype",
                         "the debug>=1 dtype assertion fails although debug 0 returns the bits of direct evaluation (Expr.get_type disagrees with NumPy promotion, e.g. copysign(x32, y64), Python max/min of mixed dtypes; see C08): " + m["why"]))
+        elif "NameError" in m["why"] and t == "numpy" and re.search(r"(?<![\w.])(inf|nan)j(?![\w(.])", text0):
+            out.append(("numpy:make_constant:complex-inf-nan-part-printed-as-bare-name",
+                        "complex constant with an infinite/NaN part printed as `(1+infj)`: " + m["why"]))
         elif "NameError" in m["why"] and t == "python" and INF_NAME.search(text0):
             out.append(("python:make_constant:inf-nan-printed-as-bare-name", "float constant inf/nan printed as the bare name `inf`/`nan`: " + m["why"]))
         else:
@@ -373,6 +377,12 @@ def build_cases(ctx, tables):
             b["refs"] = {}  # explicit references would mutate props of nodes shared with the function printed before
             cases.append(dict(id=b["name"], kind="recipe", recipe=b, prelude=a))
     cases.extend(history_cases(rng, ctx.scale(300, 2000)))
+    # complex-valued constants agreeing in one part (directed) and the identifier function on value families
+    for r in c05_gen.complex_constant_recipes():
+        cases.append(dict(id=r["name"], kind="recipe", recipe=r))
+    vals = c05_gen.ident_values(rng, ctx.scale(600, 6000))
+    for k in range(0, len(vals), 100):
+        cases.append(dict(id=f"idents{k // 100}", kind="idents", values=vals[k:k + 100]))
     return cases
 
 
@@ -427,6 +437,9 @@ def run(ctx):
         if r["kind"] == "history":
             blocks.append(["R"] + r["hlines"])
             owners.append(r)
+        elif r["kind"] == "idents":
+            blocks.append(["R"] + r["ilines"])
+            owners.append(r)
         elif r.get("status") == "printed" and not r.get("unsupported"):
             blocks.append(["R"] + r["dlines"])
             owners.append(r)
@@ -447,6 +460,16 @@ def run(ctx):
                 corr_bad += 1
                 if corr_bad <= 5:
                     corr_items[cid] = ctx.broken("correspondence:RefAlloc", json.dumps(dict(case=by_case[cid], real=r["hout"], model=model))[:3000])
+            continue
+        if r["kind"] == "idents":
+            model = o[1:]
+            ctx.traces_validated += len(model)
+            ctx.count("ident-values", len(model))
+            if model != r["iout"]:
+                corr_bad += 1
+                bad = [(ln, a, b) for ln, a, b in zip(r["ilines"], r["iout"], model) if a != b][:5]
+                if len(corr_items) < 5:
+                    corr_items[cid] = ctx.broken("correspondence:ConstName", json.dumps(dict(case=cid, differences=[dict(value=ln[2:], real=a, model=b) for ln, a, b in bad])))
             continue
         r["stream"] = by_case[cid].get("recipe", {}).get("stream", "shipped" if r["kind"] == "shipped" else "")
         r["root"] = by_case[cid].get("recipe", {}).get("root")
@@ -491,6 +514,14 @@ def run(ctx):
             ctx.case(key="H" + json.dumps([case["exprs"], case["scopes"], case["order"]]), nontrivial=clash)
             for sig, what in fails:
                 ctx.violation(sig, what, dict(case=case, failure=what), broken_item=corr_items.get(cid))
+            continue
+        if r["kind"] == "idents":
+            ctx.case(key=cid, nontrivial=bool(r.get("collisions")))
+            for c in r.get("collisions", []):
+                sig = {"sign-of-zero": "alias:constant-name-ignores-sign-of-zero",
+                       "numpy-hex-bytes": "alias:constant-name-numpy-hex-bytes-not-zero-padded"}.get(c["cls"], "alias:toidentifier:different-values-same-identifier")
+                ctx.violation(sig, f"toidentifier maps the different values {c['values']} to the same identifier `{c['ident']}`",
+                              dict(case=dict(case, values=None, pair=c["values"]), failure=c), broken_item=corr_items.get(cid))
             continue
         st = r.get("status")
         status_count[(r.get("target"), st)] = status_count.get((r.get("target"), st), 0) + 1
